@@ -3,7 +3,9 @@ from common import COMMON_TRUST
 PROP = {
     "generated": ["TimeoutConsts"],
     "lean_modules": ["SwimVerif.Model.TimeoutCoord", "SwimVerif.Proofs.TimeoutCoord",
-                     "SwimVerif.Generated.TimeoutConsts"],
+                     "SwimVerif.Generated.TimeoutConsts", "SwimVerif.Model.InactivityRt",
+                     "SwimVerif.Proofs.InactivityRt", "SwimVerif.Model.CoordThreads", "SwimVerif.Model.InactivityDl",
+                     "SwimVerif.Proofs.InactivityDl"],
     "engines": [
         {"name": "coord-random", "crate": "core", "bin": "sv-c17", "machine": "c17",
          "features": [], "cases": {"quick": 6000, "thorough": 600000}, "min_shard": 1000},
@@ -13,19 +15,49 @@ PROP = {
         {"name": "coord-exh3", "crate": "core", "bin": "sv-c17", "machine": "c17", "shards": 1,
          "cases": {"quick": 1, "thorough": 1},
          "gen_args": {"quick": ["exhaustive", "3", "4"], "thorough": ["exhaustive", "3", "6"]}},
+        # the coordinator as it is USED: the real agent runtime (read / write / HTTP task + attachment task) under
+        # `AgentRouteTask::run_agent` with a small inactive_timeout on a paused clock, scripts of remote, agent and HTTP
+        # activity and clock advances; stop / no stop, stop time and disconnection reason compared with the model
+        {"name": "rt-inactivity", "crate": "core", "bin": "sv-c17x", "machine": "c17rt", "gen_args": ["rt"],
+         "cases": {"quick": 8000, "thorough": 400000}, "min_shard": 1000, "nontrivial_min_ops": 4},
+        # the same for the downlink runtime (two parties: read and write task of the real ValueDownlinkRuntime with a
+        # small empty_timeout): consumers attach and leave, the remote lane sends events, the clock advances
+        {"name": "dl-inactivity", "crate": "core", "bin": "sv-c17x", "machine": "c17dl", "gen_args": ["dl"],
+         "cases": {"quick": 6000, "thorough": 300000}, "min_shard": 1000, "nontrivial_min_ops": 3},
+        # the real coordinator, one OS thread per voter (2 and 3 parties): monitor only
+        {"name": "coord-threads", "crate": "core", "bin": "sv-c17x", "machine": "c17th", "modes": ["monitor"],
+         "gen_args": ["threads"], "cases": {"quick": 16000, "thorough": 800000}, "min_shard": 1000,
+         "nontrivial_min_ops": 1},
     ],
     "level_text": "Proof: for 2..8 parties and every interleaving of the voters' atomic steps (fetch_or, the "
                   "load and the compare_exchange of the rescind loop, drop) and receiver polls: the flag set "
                   "equals the set of outstanding votes, unanimity is stable, Unanimous/UnanimityPending answers "
                   "are sound, a withdrawn vote blocks the stop until re-cast, a dropped party counts as voted. "
                   "Tied to the real coordinator by differential execution at operation granularity (random + "
-                  "exhaustive small scope for 2 and 3 parties).",
+                  "exhaustive small scope for 2 and 3 parties). The coordinator AS USED: a composed model of the agent "
+                  "runtime's read, write and HTTP task (each a voter with its busy flag and timer) and of the stop rule "
+                  "of AgentRuntimeTask::run, for every timeout and every script of remote / agent / HTTP activity and "
+                  "clock advances: the runtime stops by the vote only when no task is busy, all three votes are "
+                  "outstanding and a full timeout has passed since each task's last activity; a task that becomes busy "
+                  "blocks the stop until the agent reads; once every flag is set the run has ended; a task told "
+                  "Unanimous has set the last flag; with nobody busy and nothing happening for a full timeout the "
+                  "runtime stops (liveness). Tied to the real AgentRouteTask::run_agent (paused clock, stop "
+                  "time and DisconnectionReason compared) and, for the two-party case, to the real "
+                  "ValueDownlinkRuntime; the real coordinator is also stressed with one OS thread per voter "
+                  "(monitor).",
     "level_note": "Atomics are modelled as a total modification order on one location (guaranteed by Rust even for "
                   "Relaxed); AtomicWaker and the Acquire/Release pairing with the receiver are trusted; the "
-                  "implementation is exercised single-threaded, the interleavings are covered by the theorem.",
+                  "implementation is exercised single-threaded by the differential engines (the interleavings are "
+                  "covered by the theorem) and multi-threaded by coord-threads (monitor only). 'Stops only by the "
+                  "unanimous vote' is false of the agent runtime (C17-N1: no remotes => the write task stops it alone); "
+                  "the downlink runtime model has safety theorems only (its timers are not in the theorems).",
     "trusted_base": COMMON_TRUST + [
         "modelled, not verified: AtomicU8 (single-location total order), futures::task::AtomicWaker",
+        "tokio's paused clock (timers fire in deadline order at their exact instants); the harness's bookkeeping of "
+        "which task is blocked (one request frame per lane input, HTTP lane queue of length 1)",
     ],
     "assumptions": ["each voter is used by one thread at a time (Voter is !Sync)",
+                    "runtime model: remotes are not pruned, writes to remotes do not stall, lanes are not added "
+                    "after start; downlink model: linked remote lane, consumers without SYNC, drained socket",
                     "single-location atomic operations are linearizable"],
 }
